@@ -8,6 +8,7 @@ CONSTANTS
   NWs = {1, 5, 40}
   SFs <- SFsAll
   SRanges <- RangesS
+  Sides = {1}
   Export = TRUE
 INIT Init
 NEXT Next
